@@ -1241,6 +1241,14 @@ def build_inventory():
     return inv
 def files_of(pid):
     fs = {e_["file"] for e_ in ENTRIES.get(pid, [])} | {a_["file"] for a_ in ASSERTS.get(pid, []) if a_.get("file")}
+    for e_ in ENTRIES.get(pid, []):      # files whose functions are executed inline (associated functions, helper methods, inner filters)
+        for fd in (e_.get("fns") or {}).values():
+            if not callable(fd): fs.add(fd[0])
+        for md in list((e_.get("methods") or {}).values()) + list((e_.get("class_methods") or {}).values()): fs.add(md[0])
+        for sn in e_.get("subs", []) or []:
+            for es in ENTRIES.values():
+                for se in es:
+                    if se["name"] == sn or se.get("cls") == sn: fs.add(se["file"])
     fs = {f_ for f_ in fs if f_.startswith(REPO) and f_.endswith(".rs")}
     for f_ in sorted(fs):       # the module roots above a translated file (classify.rs above classify/slopes.rs): items and macros there
         d_ = os.path.dirname(f_)   # can add impls and inherent methods to the types of the file
@@ -1249,6 +1257,20 @@ def files_of(pid):
                 if os.path.isfile(cand): fs.add(cand)
             d_ = os.path.dirname(d_)
     return sorted(fs)
+def crate_of(f_): return f_[len(REPO):].split("/")[2] if f_.startswith(REPO + "/crates/") else None
+def crate_surface(crate):
+    """names only (no body hashes): trait impls, entry-point functions and macros of EVERY source file of the crate - an inherent
+    `filter` for Threshold can be added in identity.rs, a shadowing method for Convolve in any file of its crate"""
+    out = {}
+    base = os.path.join(REPO, "crates", crate, "src")
+    for r_, _, fs_ in os.walk(base):
+        for x_ in sorted(fs_):
+            if not x_.endswith(".rs"): continue
+            p_ = os.path.join(r_, x_)
+            try: fi = file_inventory(p_)
+            except Exception as e_: out[p_[len(REPO):]] = {"error": str(e_)[:80]}; continue
+            out[p_[len(REPO):]] = {"trait_impls": fi["trait_impls"], "entry_fns": sorted({re.sub(r" #[0-9a-f?]+$", "", x) for x in fi["entry_fns"]}), "macros": [m_.split(" #")[0] for m_ in fi["macros"]]}
+    return out
 def write_inventory():
     import json
     inv = {}
@@ -1256,6 +1278,8 @@ def write_inventory():
         for f_ in files_of(pid): inv[f_[len(REPO):]] = file_inventory(f_)
     for f_ in TRAITS_FILES: inv[f_[len(REPO):]] = file_inventory(f_, whole_text=True)
     inv["/build"] = build_inventory()
+    for c_ in sorted(os.listdir(REPO + "/crates")):
+        if os.path.isdir(os.path.join(REPO, "crates", c_, "src")): inv["/surface:" + c_] = crate_surface(c_)
     eff = {}
     for pid in sorted(ENTRIES):
         for ent in ENTRIES[pid]:
@@ -1272,6 +1296,9 @@ def inventory_asserts():
     for pid in sorted(set(ENTRIES) | set(ASSERTS)):
         ASSERTS.setdefault(pid, []).append(dict(name="build_configuration", file=REPO + "/Cargo.toml", build=inv.get("/build"),
             message="the build configuration differs from the audited one (workspace manifest sections, a crate's [dependencies]/[features], the module structure / feature gates / re-exports of a crate root, or a new .cargo/config, rust-toolchain or build.rs)"))
+        for c_ in sorted({crate_of(f_) for f_ in files_of(pid)} - {None}):
+            ASSERTS.setdefault(pid, []).append(dict(name="crate_surface_" + c_, file=REPO + "/crates/%s/Cargo.toml" % c_, surface=(c_, inv.get("/surface:" + c_)),
+                message="the trait impls / entry-point functions / macros of some file of crate %s differ from the audited ones" % c_))
         for f_ in files_of(pid) + TRAITS_FILES:
             rel = f_[len(REPO):]
             ASSERTS.setdefault(pid, []).append(dict(name="api_surface_" + rel.replace("/crates/", "").replace("/src/", "_").replace("/", "_").replace(".rs", ""),
@@ -1600,6 +1627,18 @@ def regenerate(pid, ROOT, BUILD):
                 ok_inv = a["build"] is not None and cur_ == a["build"]
                 if not ok_inv and a["build"] is not None:
                     a = dict(a, message=a["message"] + ": " + " | ".join("%s: %s (audited: %s)" % (k_, str(cur_.get(k_))[:150], str(a["build"].get(k_))[:150]) for k_ in sorted(set(cur_) | set(a["build"])) if cur_.get(k_) != a["build"].get(k_))[:700])
+            elif "surface" in a:
+                cur_ = crate_surface(a["surface"][0]); aud_ = a["surface"][1]
+                ok_inv = aud_ is not None and cur_ == aud_
+                if not ok_inv and aud_ is not None:
+                    diff_ = []
+                    for f_ in sorted(set(cur_) | set(aud_)):
+                        if cur_.get(f_) == aud_.get(f_): continue
+                        if f_ not in aud_: diff_.append("new file " + f_); continue
+                        if f_ not in cur_: diff_.append("file gone " + f_); continue
+                        for k_ in ("trait_impls", "entry_fns", "macros"):
+                            diff_ += ["%s: + %s" % (f_, x_) for x_ in cur_[f_].get(k_, []) if x_ not in aud_[f_].get(k_, [])] + ["%s: - %s" % (f_, x_) for x_ in aud_[f_].get(k_, []) if x_ not in cur_[f_].get(k_, [])]
+                    a = dict(a, message=a["message"] + ": " + " | ".join(diff_)[:600])
             elif "inventory" in a:
                 cur_ = file_inventory(a["file"], whole_text="text_sha256" in (a["inventory"] or {}))
                 ok_inv = a["inventory"] is not None and cur_ == a["inventory"]
